@@ -153,7 +153,11 @@ func c06valid(rng *rand.Rand, link oracle.Link, kind string) []byte {
 		var sha, tha [6]byte
 		rng.Read(sha[:])
 		rng.Read(tha[:])
-		return oracle.BuildEth(c06macA, sha, oracle.EtherTypeARP, oracle.BuildARP(uint16(1+rng.Intn(2)), sha, c06ip(rng), tha, c06ip(rng)))
+		ethSrc := sha
+		if rng.Intn(2) == 0 { // proxy ARP / VRRP: the frame comes from another MAC than the sender field says
+			ethSrc = c06macB
+		}
+		return oracle.BuildEth(c06macA, ethSrc, oracle.EtherTypeARP, oracle.BuildARP(uint16(1+rng.Intn(2)), sha, c06ip(rng), tha, c06ip(rng)))
 	case "arp-sizes":
 		sizes := []uint8{0, 1, 2, 4, 6, 8, 16, 128, 255}
 		hl, pl := sizes[rng.Intn(len(sizes))], sizes[rng.Intn(len(sizes))]
